@@ -869,17 +869,41 @@ fn check_plans(ctx: &mut Ctx, case: &Case, links: &[Link], sims: &[SpeedLimitTra
             }
         }
     }
-    // black-box necessary condition: front-occupancy intervals of opposite-direction trains do not overlap
+    // black-box necessary condition, from the returned plans, the link lengths and the train lengths only (nothing
+    // of the dispatcher's own occupancy tables): a train certainly holds link i from the time its front enters it
+    // until the time its front enters the last later link m that starts less than one train length beyond the end
+    // of link i (the tail is then still on link i). Such windows of two trains must not overlap on a segment and
+    // its reverse, nor on segments declared mutually exclusive. (A train that finishes leaves the model: its
+    // windows end with its last arrival.)
+    let certain: Vec<Vec<(usize, f64, f64)>> = (0..n)
+        .map(|t| {
+            let p = &plans[t];
+            let len_t = sims[t].state.length.value;
+            let mut starts = vec![0.0f64];
+            for x in p.iter() {
+                starts.push(starts.last().unwrap() + links[x.link_idx.idx()].length.value);
+            }
+            (0..p.len().saturating_sub(1))
+                .map(|i| {
+                    let end_i = starts[i + 1];
+                    let mut m = i + 1;
+                    while m + 1 < p.len() && starts[m + 1] - end_i < len_t {
+                        m += 1;
+                    }
+                    (p[i].link_idx.idx(), p[i].time.value, p[m].time.value)
+                })
+                .collect()
+        })
+        .collect();
     for a in 0..n {
         for b in a + 1..n {
-            for wa in plans[a].windows(2) {
-                for wb in plans[b].windows(2) {
-                    let (la, lb) = (wa[0].link_idx.idx(), wb[0].link_idx.idx());
-                    if links[la].idx_flip.idx() == lb && lb != 0 {
-                        let (a0, a1, b0, b1) = (wa[0].time.value, wa[1].time.value, wb[0].time.value, wb[1].time.value);
-                        if a0 < b1 - T_EPS && b0 < a1 - T_EPS {
-                            ctx.violate_sig("C04", "occupancy", "returned plans: opposite fronts never on one segment at overlapping times", format!("trains {a} and {b} on links {la}/{lb}: [{a0:.1}, {a1:.1}] vs [{b0:.1}, {b1:.1}]"), sig1("final", true));
-                        }
+            for &(la, a0, a1) in &certain[a] {
+                for &(lb, b0, b1) in &certain[b] {
+                    let flip = links[la].idx_flip.idx() == lb && lb != 0;
+                    let lockout = links[la].link_idxs_lockout.iter().any(|x| x.idx() == lb) || links[lb].link_idxs_lockout.iter().any(|x| x.idx() == la);
+                    if (flip || lockout) && a0 < b1 - T_EPS && b0 < a1 - T_EPS && a0.is_finite() && b0.is_finite() {
+                        let clause = if flip { "returned plans: opposite trains never on one segment at overlapping times (front entering to tail certainly still on it)" } else { "returned plans: mutually exclusive segments never held at overlapping times (front entering to tail certainly still on it)" };
+                        ctx.violate_sig("C04", "occupancy", clause, format!("trains {a} and {b} on links {la}/{lb}: [{a0:.1}, {a1:.1}] vs [{b0:.1}, {b1:.1}]"), sig1("final", true));
                     }
                 }
             }
